@@ -40,11 +40,15 @@ struct LTr<'a> {
     /// `mut x: &mut [u8]` parameters: a view into the caller's buffer that the body may re-slice
     /// (`x = &mut x[n..]`); `x` holds the view, `x'` the part of the caller's buffer left behind
     views: Vec<String>,
+    /// inside the body of a list loop: `return` and `?` leave the loop with `Rs.Step.ret`
+    loop_ret: bool,
+    /// type expected of the expression being translated (tail of the function body)
+    hint: Option<LTy>,
 }
 
 impl<'a> LTr<'a> {
     fn translate(reg: &'a Registry, lreg: &'a LReg, failed: &'a HashSet<String>, lean_name: &str, self_ty: LTy, fsig: &Signature, fblock: &Block, sig: &'a LFnSig) -> R<String> {
-        let mut tr = LTr { reg, lreg, failed, sig, self_ty: self_ty.clone(), tmp: 0, lines: vec![], ind: 1, vars: HashMap::new(), state: vec![], closure: false, deref_var: None, deref_ro: vec![], views: vec![] };
+        let mut tr = LTr { reg, lreg, failed, sig, self_ty: self_ty.clone(), tmp: 0, lines: vec![], ind: 1, vars: HashMap::new(), state: vec![], closure: false, deref_var: None, deref_ro: vec![], views: vec![], loop_ret: false, hint: None };
         let mut binders = String::new();
         for (p, bounds) in &sig.tparams {
             write!(binders, " {{{p} : Type}}").unwrap();
@@ -154,6 +158,10 @@ impl<'a> LTr<'a> {
     }
     /// `r?` for an `IoRes` value held in the variable `res`
     fn bind_try(&mut self, pat: &str, res: &str) -> R<()> {
+        if self.closure && self.loop_ret && self.is_io() {
+            self.emit(format!("let .ok {pat} := {res} | return (Rs.Step.ret (Rs.IoRes.fail {res}))"));
+            return Ok(());
+        }
         if self.closure {
             return Err("`?` inside a loop body".into());
         }
@@ -188,7 +196,7 @@ impl<'a> LTr<'a> {
     }
 
     fn is_stmt_like(&self, e: &Expr) -> bool {
-        matches!(e, Expr::Return(_) | Expr::If(_) | Expr::ForLoop(_) | Expr::While(_) | Expr::Assign(_)) || matches!(e, Expr::Binary(b) if is_assign_op(&b.op)) || matches!(e, Expr::Match(m) if m.arms.iter().all(|a| matches!(&*a.body, Expr::Block(_)) || diverges(&a.body)))
+        matches!(e, Expr::Return(_) | Expr::If(_) | Expr::ForLoop(_) | Expr::While(_) | Expr::Assign(_)) || matches!(e, Expr::Binary(b) if is_assign_op(&b.op)) || matches!(e, Expr::Match(m) if m.arms.iter().all(|a| matches!(&*a.body, Expr::Block(_) | Expr::Assign(_)) || matches!(&*a.body, Expr::Binary(b) if is_assign_op(&b.op)) || matches!(&*a.body, Expr::Tuple(t) if t.elems.is_empty()) || diverges(&a.body)))
     }
 
     fn stmt(&mut self, s: &Stmt) -> R<()> {
@@ -196,6 +204,7 @@ impl<'a> LTr<'a> {
             Stmt::Local(l) => self.local(l),
             Stmt::Expr(e, _) => self.stmt_expr(e),
             Stmt::Macro(m) => self.stmt_macro(&m.mac),
+            Stmt::Item(Item::Use(_)) => Ok(()),
             Stmt::Item(_) => Err("nested item".into()),
         }
     }
@@ -268,6 +277,12 @@ impl<'a> LTr<'a> {
             return Ok(());
         }
         match e {
+            Expr::Return(r) if self.closure && self.loop_ret => {
+                let v = r.expr.as_ref().ok_or("return without a value")?;
+                let res = self.ret_value(v)?;
+                self.emit(format!("return (Rs.Step.ret ({res}))"));
+                Ok(())
+            }
             Expr::Return(r) => {
                 if self.closure {
                     return Err("`return` inside a loop body".into());
